@@ -1221,8 +1221,14 @@ def transpose(interp, x, axes=None):
             from .api_numpy import shape_terms as _st
 
             nsh = tuple(reversed(sh))
-            return V("arr", T("reshape1", x.term, *_st(nsh)), shape=nsh, orig=x.orig, labels=x.labels, loc=x.loc, extra=x.extra if isinstance(x.extra, str) else None)
-        return V("arr", T("T", x.term), shape=tuple(reversed(sh)) if sh is not None else None, orig=x.orig, labels=x.labels, loc=x.loc, extra=x.extra if isinstance(x.extra, str) else None)
+            r_ = V("arr", T("reshape1", x.term, *_st(nsh)), shape=nsh, orig=x.orig, labels=x.labels, loc=x.loc, extra=x.extra if isinstance(x.extra, str) else None)
+            if hasattr(interp, "vtab"):
+                interp.vtab.setdefault(r_.term, r_)  # (a transpose made inside a transfer function is not an evaluated expression)
+            return r_
+        r_ = V("arr", T("T", x.term), shape=tuple(reversed(sh)) if sh is not None else None, orig=x.orig, labels=x.labels, loc=x.loc, extra=x.extra if isinstance(x.extra, str) else None)
+        if hasattr(interp, "vtab") and sh is not None:
+            interp.vtab.setdefault(r_.term, r_)
+        return r_
     if axes.items is not None and all(a.has_const for a in axes.items):
         perm = [a.const for a in axes.items]
         nsh = tuple(sh[p] for p in perm) if sh is not None and len(sh) == len(perm) else None
@@ -1284,6 +1290,22 @@ def np_pad(interp, name, args, kw, st, node):
             blk = tuple(highs[ax] if i == ax else A.dim_term(d) for i, d in enumerate(sh))
             term = T("stack", const(ax), x.term, T("zeros", *blk))
     return fresh_arr(term, nsh if nsh is not None else (None if sh is None else tuple(Dim.unknown("pad") for _ in sh)), x.labels | (pw.labels if pw is not None else frozenset()))
+
+
+@reg("numpy.compress")
+def np_compress(interp, name, args, kw, st, node):
+    """np.compress(m, a, axis=k): the slices of a along axis k where m holds, in order - a[m] / a[:, m]"""
+    b = bind(["condition", "a", "axis"], args, kw)
+    m, x = arrv(b["condition"]), arrv(b["a"])
+    sh = shape(x)
+    ax = axis_of(b.get("axis"), None) if b.get("axis") is not None and b["axis"].kind != "none" else None
+    if sh is not None and ((ax is None and len(sh) == 1) or ax == 0 or (isinstance(ax, int) and ax == -len(sh))):
+        kw.pop("axis", None)
+        return A.subscript(interp, x, m, st, node)
+    if sh is not None and len(sh) == 2 and ax in (1, -1):
+        kw.pop("axis", None)
+        return A.subscript(interp, x, interp.mk_tuple([A._full_slice(), m]), st, node)
+    return fresh_arr(callterm(name, args, kw), None, _L(*args, *kw.values()))
 
 
 @reg("numpy.take")
